@@ -99,6 +99,17 @@ CHECKS = {
              "solver-checked bound lemmas; uniqueness of binary expansion is cited (re-decided for N<=8); "
              "'satisfiable for every input' only at honest witnesses of boundary inputs",
         tech="constraint extraction from the real composer + symbolic row semantics + SMT (z3 LIA/NIA)"),
+    "C12": dict(
+        cat="other", ref="§5 C12",
+        text="Bounded solver verdict on rows emitted by the real composer run on symbolic coordinates: the two rows "
+             "of add_point_gates == the three twisted-Edwards addition equations (wiring included), the witness "
+             "computed by the real code satisfies them and equals the affine group-law formula, outputs are unique "
+             "for non-zero denominators; neg/select_identity/select_point rows => documented result, unique, "
+             "select_identity unsatisfiable for a non-boolean bit; sub and mul_point are structural compositions "
+             "(all 252 rounds matched on the extracted layout) of the proven pieces.",
+        note="completeness of the Edwards law on curve points, associativity and subgroup closure are cited, so "
+             "'exactly the group sum / [s]P' is relative to those lemmas",
+        tech="symbolic execution of the real composer + symbolic row semantics + SMT (z3)"),
     "C19": dict(
         cat="other", ref="§5 C19",
         text="Bounded solver verdict: the real fft/ifft/coset_fft/coset_ifft, Polynomial arithmetic, ruffini, "
